@@ -97,7 +97,7 @@ CLAIMED = {
         "errors. The operator model mirrors units.py branch by branch (which operand is converted, where the result is stored, Python's "
         "reflected dispatch) and is tied to it on every run by enumerating every dispatch path (69 paths: operand kinds x operators, "
         "direct and reflected, unary, powers, comparisons) with operands from all 1100 systems, plus random trees of depth <= 4; the "
-        "verdict (system and dimension exactly, values at relative 1e-9) is computed in Coq.",
+        "verdict (system and dimension exactly, values at relative 1e-9) is computed in Coq. A block of comparisons and operations keeps to three units systems in every dimension (whatever is remembered per pair of systems meets that pair again).",
         "Trusted: Coq kernel + VM; the hand-written operator model (tied by correspondence, sampled operands on an exhaustive list of "
         "dispatch paths); division/modulo by zero and non-finite results are outside the property's quantifier, the model totalises "
         "them (x/0 = 0) and the generator never produces them; cases within 1e-6 of a discontinuity of % or a comparison, or with "
@@ -152,7 +152,7 @@ CLAIMED = {
         "(grid/graph, four policies, four init_state_processing modes) executed in one child process as reference, again, on another "
         "object, after unrelated simulations, under random partitions incl. iterate_n(0) and run(0/1/3 ms), from the script stored in the "
         "trajectory, from rng_seed=None and then its stored script, with another seed (Euler identical, Gillespie different), and in a "
-        "fresh process; times and data compared bit for bit in Coq. The same run is also asked for through simulate() with every script property as a keyword argument. A geometric sibling (the same cells and edges, other surfaces, distances and volumes) is the first set-up of a fresh engine object on which the script then runs.",
+        "fresh process; times and data compared bit for bit in Coq. The same run is also asked for through simulate() with every script property as a keyword argument. A geometric sibling (the same cells and edges, other surfaces, distances and volumes) is the first set-up of a fresh engine object on which the script then runs. Seeds range up to about 2^63, and the script is also run after a trip through its dictionary.",
         "Trusted: Coq kernel + VM; the modelling assumption that an iteration is a function of the simulation object alone (no static, "
         "clock or uninitialised memory) is exactly what the correspondence tests, by sampling (60 scripts x 11 runs quick, 1500 thorough); "
         "PARTIAL: real wall-clock slicing of run(ms) is sampled (0, 1, 3 ms), the theorem covers all slicings of the model; 'a different "
